@@ -331,8 +331,8 @@ def one_case(ctx, case):
             if obs["on"]:
                 log["scheds_made"].append(self)
 
-        def step(self):
-            self.last_epoch += 1
+        def step(self, epoch=None):  # torch's scheduler signature: an explicit epoch SETS the counter (deprecated form)
+            self.last_epoch = self.last_epoch + 1 if epoch is None else epoch
             if obs["on"]:
                 log["sched"].append(len(log["batches"]))
                 log["events"].append("sched")
